@@ -45,7 +45,10 @@
 //!                          binary give the same verdict on the same message
 //!
 //! Parts: this file (single signatures of every kind), `c02/inline.rs` (signed messages),
-//! `c02/cleartext.rs` (cleartext signature framework), `c02/cert.rs` (certificates, bindings).
+//! `c02/text.rs` (line endings: documents x insert/remove CR, LF, CR LF, chunked delivery),
+//! `c02/multi.rs` (messages with several signatures of mixed types / versions / layouts),
+//! `c02/cleartext.rs` (cleartext signature framework), `c02/cert.rs` (certificates, bindings),
+//! `c02/embedded.rs` (field sweep inside a back-signature embedded in the hashed / unhashed area).
 use std::io::Read;
 
 use pgp::armor::{self, BlockType};
@@ -76,7 +79,10 @@ use crate::sigrec::{self, SigFields, Subject, WKey};
 
 mod cert;
 mod cleartext;
+mod embedded;
 mod inline;
+mod multi;
+mod text;
 
 // ------------------------------------------------------------------------------------------
 // key wrappers: one type for primary and subkeys
@@ -1281,7 +1287,10 @@ pub fn run(ctx: &mut Ctx) {
     }
     part_single(ctx, &fixes);
     inline::run(ctx, &fixes);
+    text::run(ctx, &fixes);
+    multi::run_all(ctx, &fixes);
     cleartext::run(ctx, &fixes);
     cert::run(ctx, &fixes);
+    embedded::run(ctx, &fixes);
 }
 
